@@ -80,6 +80,9 @@ structure St where
   a completion — no timeout, and (fix d4303dd) no future was waiting for a submission slot
   when the blocked list was looked at -/
   block : Bool := false
+  /-- IORING_SETUP_SQPOLL: a kernel thread takes the submissions — everything that is published
+  when the ring thread's `enter` wakes it, not only the `to_submit` the caller computed -/
+  kt : Bool := false
   deriving Repr
 
 def setF (s : St) (i : Nat) (pc : FPc) : St := { s with f := s.f.set i pc }
@@ -117,7 +120,8 @@ def stepR (s : St) : St :=
   | .enter n =>
     -- the kernel consumes `min n pending`; nothing completes: a call with a timeout returns
     -- (ETIME / Ok(n); both wake), a call without one stays in the kernel
-    { s with H := s.H + min n (s.T - s.H), r := if s.block then .waiting else .w1 }
+    { s with H := if s.kt then s.T else s.H + min n (s.T - s.H),
+             r := if s.block then .waiting else .w1 }
   | .waiting => s
   | .w1 => { s with r := .w2 s.H }
   | .w2 h =>
@@ -194,7 +198,9 @@ def stepLine (s : St) (toks : List String) : St × List String :=
     | some len, some n =>
       if len == 0 || len > 16 || (len &&& (len - 1)) != 0 || n == 0 || n > 8 then
         ({ s with f := [], r := .idle }, ["bad-op"])
-      else (init len n 1, [showState (init len n 1)])
+      else
+        let kt := findNat "kt" rest == some 1
+        ({ init len n 1 with kt := kt }, [showState (init len n 1)])
     | _, _ => (s, ["bad-op"])
   | ["blk", "f", i] =>
     match parseNat i with
